@@ -579,6 +579,23 @@ class Algebra(object):
                 return self.atom(("ite", ck, self.pid(sa), self.pid(sb)), False, "ite", (c, sa, sb, ck))
         return self.atom(("sumt", self.pid(p)), False, "sumt", (p,))
 
+    def pmin(self, pa, pb, perstep=True):
+        """min of two polynomials as the same atom the extractor would produce."""
+        if pa == pb:
+            return pa
+        ks = tuple(sorted([self.pid(pa), self.pid(pb)]))
+        return self.atom(("min", ks), perstep or self.perstep_poly(pa) or self.perstep_poly(pb), "min", (pa, pb))
+
+    def assume_conditions(self, p, conds):
+        """p with the indicator atoms of the given condition terms set to 1 (case assumption)."""
+        from .order import psubst_all
+        for c in conds:
+            ip = self.ind(c)
+            a = self.atom_of(ip)
+            if a is not None:
+                p = psubst_all(p, a.id, const(1))
+        return p
+
     # ------------------------------------------------------------------ R4: Σ shares = 1
     def cancel(self, p):
         """(Σ_j m*q_j) * Q^-1 = m when Q is the atom standing for the sum Σ_j q_j (rule R4)."""
